@@ -4,8 +4,8 @@ package main
 
 import (
 	"fmt"
-	"go/types"
 	"go/token"
+	"go/types"
 	"strings"
 
 	"golang.org/x/tools/go/ssa"
